@@ -416,3 +416,11 @@ func init() {
 			New: "\tnb := 0\n\tfor m := range models {\n\t\t_ = m\n\t\tnb += 1\n\t\tif verbose {\n\t\t\tfmt.Printf(\"c %d models found\\n\", nb)\n\t\t}\n\t}\n\tfmt.Println(nb)", Expect: ""},
 	)
 }
+
+func init() {
+	addSeeds(
+		seed{Prop: "C09", Name: "benign-bulk-growth", File: "solver/solver.go",
+			Old: "\t\tfor i := s.nbVars; i < cnfVar; i++ {\n\t\t\ts.model = append(s.model, 0)\n\t\t\ts.activity = append(s.activity, 0.)",
+			New: "\t\ts.activity = append(s.activity, make([]float64, cnfVar-s.nbVars)...)\n\t\tfor i := s.nbVars; i < cnfVar; i++ {\n\t\t\ts.model = append(s.model, 0)", Expect: ""},
+	)
+}
